@@ -199,6 +199,9 @@ func Yield()                               {}
 func NoPreempt(on bool)                    {}
 func Quiesce()                             {}
 func ExpectDeadlock(id string)             {}
+func SleepBlocks(on bool)                  {}
+func EagerOffsets(on bool)                 {}
+func WakeSleepers()                        {}
 
 // WouldBlock natively: run f in a goroutine and wait briefly.
 func WouldBlock(f func()) bool {
